@@ -143,7 +143,9 @@ class Report:
         known = load_known()
         seen, lines = set(), []
         n_unlisted = n_known = n_nonrepro = 0
-        for v in self.violations:
+        # one report per key; a reproduced counterexample takes precedence over a non-reproducing one with the same key
+        ordered = sorted(self.violations, key=lambda v: not v["reproduced"])
+        for v in ordered:
             k = (self.pid, v["key"])
             if k in seen:
                 continue
